@@ -119,7 +119,7 @@ def make_cfg(desc):
     return cfg
 
 
-def work(item):
+def work(item, errors="type"):
     name, prog, descs = item
     text = gen.program_text(prog)
     groups = gen.ad_groups_of(prog)
@@ -127,7 +127,8 @@ def work(item):
     PERMUTED[0] = 0
     for d in descs:
         diffcheck.diff_check(text, make_cfg({}), make_cfg(d), {}, d, groups=groups, name=name, st=st,
-                             key_prefix=(d.get("engine", "") + ":") if d.get("engine") in ("unbuffered", "rc_first", "random") else "")
+                             key_prefix=(d.get("engine", "") + ":") if d.get("engine") in ("unbuffered", "rc_first", "random") else "",
+                             errors=errors)
     st["permuted_batches"] = PERMUTED[0]
     return st
 
@@ -163,8 +164,8 @@ def main(tier, seed):
     return run.finish()
 
 
-def replay(obj):
+def replay(obj, errors="type"):
     vals = dict((k, Fraction(v)) for k, v in obj["values"].items())
     rep, info = diffcheck.replay_diff(obj["program"], make_cfg(obj["A"]), make_cfg(obj["B"]), vals,
-                                      ignore_extra_zero=True)
+                                      ignore_extra_zero=True, errors=errors)
     return rep
